@@ -27,7 +27,7 @@ for p in props:
 m = {
  "version": 1,
  "setup_cmd": "./vcheck setup",
- "hooks": {"guard": "NIX_VERIF", "enable": "none needed: the engine calls any function of the IR module directly; observation goes through public getters", "baseline_off_cmd": "ctest --test-dir /repo/_build -j8 --timeout 900", "source_commits": [], "add_only": True},
+ "hooks": {"guard": "NIX_VERIF", "enable": "none needed: the engine calls any function of the IR module directly; observation goes through public getters", "baseline_off_cmd": "cmake --build /repo/_build -j16 && ctest --test-dir /repo/_build -j1 --timeout 900", "source_commits": [], "add_only": True},
  "engines": [{"name": "nixsym", "path": "engine/", "serves_properties": [c["property_id"] for c in checks], "kind_free_text": "symbolic executor for LLVM-14 IR (concrete fast path + z3 terms, forking, object memory with bounds/lifetime checks, C++ EH and RTTI), SMT back-end z3 (incremental for bit-vector queries, one-shot bit-blasting tactic for floating point)"},
              {"name": "h5model", "path": "h5model/", "serves_properties": [c["property_id"] for c in checks], "kind_free_text": "in-memory C model of the HDF5 1.10 API subset nix uses; executed symbolically with the code under analysis"}],
  "checks": checks,
